@@ -93,6 +93,18 @@ pub mod basic {
         pub strings: [String; 3],
         pub nested: [[u8; 2]; 0],
     }
+    /// non-ASCII identifiers
+    #[derive(TypeInfo)]
+    #[allow(non_snake_case)]
+    pub struct Unicode {
+        pub länge: u32,
+        pub größe: Vec<(u8, Uebung)>,
+    }
+    #[derive(TypeInfo)]
+    pub enum Uebung {
+        Früh,
+        Spät { dauer_in_µs: u64 },
+    }
     #[derive(TypeInfo)]
     pub enum Empty {}
     #[derive(TypeInfo)]
@@ -277,6 +289,18 @@ pub mod generics {
         pub a: UsesMyBox<u32>,
         pub b: UsesMyBox<bool>,
     }
+    /// typed-id pattern: the parameter only lives in the marker, and one instantiation uses the field's own type
+    #[derive(TypeInfo)]
+    pub struct Tagged<T> {
+        pub id: u32,
+        pub _tag: PhantomData<T>,
+    }
+    #[derive(TypeInfo)]
+    pub struct UsesTagged {
+        pub a: Tagged<u32>,
+        pub b: Tagged<bool>,
+        pub c: Vec<Tagged<u32>>,
+    }
     #[derive(TypeInfo)]
     pub struct TwoUnused<A, B> {
         pub x: u8,
@@ -451,6 +475,15 @@ pub mod rec {
         pub a: Quad,
         pub b: Quad,
         pub c: Quad,
+    }
+    /// a user type whose name ends in `Box` around a real Box inside a cycle
+    #[derive(TypeInfo)]
+    pub struct SandBox<T>(pub T);
+    #[derive(TypeInfo)]
+    pub enum Chain {
+        End,
+        Link(SandBox<Box<Chain>>),
+        Opt(Option<SandBox<Box<Chain>>>, u8),
     }
     /// the same recursive enum reached several times
     #[derive(TypeInfo)]
@@ -632,6 +665,7 @@ pub fn all() -> Vec<(&'static str, PortableRegistry)> {
         ("collections", reg_of::<basic::Collections>()),
         ("enum", reg_of::<basic::UsesE>()),
         ("empty_enum", reg_of::<basic::Empty>()),
+        ("unicode", reg_of::<basic::Unicode>()),
         ("options_arrays", reg_of::<basic::OptionsAndArrays>()),
         ("compact", reg_of::<compact::Comp>()),
         ("compact_enum", reg_of::<compact::CompE>()),
@@ -643,6 +677,7 @@ pub fn all() -> Vec<(&'static str, PortableRegistry)> {
         ("boxed_param", reg_of::<generics::UsesBoxedParam>()),
         ("phantom", reg_of::<generics::UsesPh>()),
         ("two_unused", reg_of::<generics::UsesTwoUnused>()),
+        ("tagged", reg_of::<generics::UsesTagged>()),
         ("cow_generic", reg_of::<generics::UsesCowG>()),
         ("mybox", reg_of::<generics::UsesUsesMyBox>()),
         ("calls", reg_of::<calls::Outer>()),
@@ -651,6 +686,7 @@ pub fn all() -> Vec<(&'static str, PortableRegistry)> {
         ("rec", reg_of::<rec::Rec>()),
         ("tree", reg_of::<rec::UsesTree>()),
         ("forest", reg_of::<rec::Forest>()),
+        ("chain", reg_of::<rec::Chain>()),
         ("quad_forest", reg_of::<rec::QuadForest>()),
         ("mutual", reg_of::<rec::MutA>()),
         ("assoc_skip", reg_of::<assoc::UsesHdr>()),
